@@ -374,6 +374,11 @@ func helperChanArgs(p *ssa.Parameter) []ssa.Value {
 	if b, ok := chanParamBinding[p]; ok {
 		return []ssa.Value{b}
 	}
+	if a := literalCallArg(p); a != nil {
+		if _, isChan := p.Type().Underlying().(*types.Chan); isChan {
+			return []ssa.Value{resolveVal(a)}
+		}
+	}
 	if fn == nil || fn.Parent() != nil || token.IsExported(fn.Name()) || curCtx == nil || helperChanArgsBusy[p] {
 		return nil
 	}
